@@ -120,6 +120,7 @@ class Rig(object):
         a, b = pair.ctl
         computed = 0
         last_stamp = None
+        pending_jump = False         # a set point jump was seen by an update that then failed (dropout): judged at the next one
         for i, (stamp, inp, rate, rsp) in enumerate(steps):
             if self.nseq % 8 == 0:
                 pair.store.changeStamp(stamp)
@@ -154,6 +155,14 @@ class Rig(object):
                     self.exceptions[k] = self.exceptions.get(k, 0) + 1
             if errs[0] is not None or errs[1] is not None:
                 ctx.hit("action_raised")
+                if inp is None and errs[0] is not None and errs[1] is not None:
+                    # a sensor dropout: the update fails (no input to compute with) and the controller is evaluated again at the
+                    # next step; a set point change seen by the failed update has still reset the integrator (the twin shows)
+                    ctx.hit("dropout_update_failed_and_sequence_went_on")
+                    if will_compute and jump:
+                        ctx.hit("dropout_at_a_set_point_jump")
+                        pending_jump = True
+                    continue
                 break
             ctx.event()
             if not will_compute:
@@ -208,14 +217,18 @@ class Rig(object):
             else:
                 ctx.hit("error_check_skipped_nonfinite")
             # R
-            if jump:
+            if jump or pending_jump:
+                judged_late = pending_jump and not jump
+                if judged_late:
+                    ctx.hit("setpoint_jump_judged_after_a_failed_update")
+                pending_jump = False
                 ctx.hit("setpoint_jump")
                 bes, bout = b.es.value, b.output.value
                 same = (bes == es or (bes != bes and es != es)) and (bout == out or (bout != bout and out != out))
                 ctx.check(same, "ControllerPid/integrator-not-reset-on-setpoint-change",
                           "after a set point change larger than drsp the new error sum / output still depend on the old error sum",
                           lambda: wit(twin_error_sum=repr(bes), twin_output=repr(bout)))
-                ctx.check(a.prsp.value == rsp or (rsp != rsp), "ControllerPid/prior-setpoint-not-updated",
+                ctx.check(judged_late or a.prsp.value == rsp or (rsp != rsp), "ControllerPid/prior-setpoint-not-updated",
                           "prior set point share not updated on a set point change", wit)
             else:
                 # keep the twin identical when no jump happened (it was not perturbed)
@@ -289,11 +302,17 @@ def gen_steps(rng, n):
             rsp = rsp + rng.choice((0.001, -0.001, 0.01, 0.02))      # around the drsp threshold
         inp = gen_value(rng, inp if finite(inp) else 0.0)
         steps.append((t, inp, gen_value(rng), rsp))
+    # sensor dropouts: the input share holds None for one step (often the step that brings a new set point)
+    r3 = random.Random(repr(("dropout", steps[:2])))
+    for j in range(1, len(steps)):
+        t, inp, rate, rsp = steps[j]
+        if r3.random() < (0.12 if rsp != steps[j - 1][3] else 0.01):
+            steps[j] = (t, None, rate, rsp)
     # inputs a few units in the last place beside the set point (a plant that has just about arrived): the difference is
     # tiny and of either sign, and its shortest wrapped form is that tiny difference, not half a turn
     r2 = random.Random(repr(steps[:2]))
     for j, (t, inp, rate, rsp) in enumerate(steps):
-        if finite(rsp) and r2.random() < 0.12:
+        if inp is not None and finite(rsp) and r2.random() < 0.12:
             x = rsp
             for _ in range(r2.randint(1, 3)):
                 x = math.nextafter(x, r2.choice((-INF, INF)))
@@ -357,4 +376,5 @@ def run(ctx):
     ctx.floor("twin_perturbed", n // 2)
     ctx.floor("error_wrapped", n // 4)
     ctx.floor("tiny_difference_with_wrap", n // 8)
+    ctx.floor("dropout_at_a_set_point_jump", n // 20)
     ctx.floor("no_lapse_update", n // 2)
